@@ -6,13 +6,18 @@ using namespace vf;
 struct Case {
   SrcFamily fam;
   int dupsort = 0;
+  int merge = 1;  // 1: concatenating merge function; 0: no merge function (only generated with key sets that are disjoint
+                  // across sources, where "one table holding the merged content" is still well defined)
   std::vector<IterSpec> iters;
   std::vector<Op> ops;
   std::vector<bytes> extra;
   uint32_t qseed = 1;
   int queries = 1;  // also run the derived query set
   bool valid() const {
-    if (!fam.valid() || dupsort < 0 || dupsort > 2 || iters.empty() || iters.size() > 4) return false;
+    if (!fam.valid() || dupsort < 0 || dupsort > 2 || iters.empty() || iters.size() > 4 || merge < 0 || merge > 1) return false;
+    if (merge == 0)
+      for (auto &kv : fam.occurrences())
+        if (kv.second > 1) return false;
     for (auto &o : ops)
       if (o.it < 0 || o.it >= (int)iters.size()) return false;
     return true;
@@ -20,7 +25,7 @@ struct Case {
   std::string ser() const {
     Out o;
     o << "property C05\n";
-    o << "opts dupsort=" << dupsort << " qseed=" << qseed << " queries=" << queries << "\n";
+    o << "opts dupsort=" << dupsort << " merge=" << merge << " qseed=" << qseed << " queries=" << queries << "\n";
     fam.ser(o);
     for (size_t i = 0; i < iters.size(); i++) o << "iter " << i << " " << iters[i].ser() << "\n";
     for (auto &e : extra) o << "query " << (e.empty() ? "-" : hex(e)) << "\n";
@@ -37,6 +42,7 @@ struct Case {
           std::string k = row[i].substr(0, e);
           long long v = atoll(row[i].c_str() + e + 1);
           if (k == "dupsort") c.dupsort = (int)v;
+          else if (k == "merge") c.merge = (int)v;
           else if (k == "qseed") c.qseed = (uint32_t)v;
           else if (k == "queries") c.queries = (int)v;
         }
@@ -53,6 +59,26 @@ static Case gen_case() {
   Case c;
   c.fam = gen_family(6, true);
   c.dupsort = weighted({60, 20, 20});
+  if (chance(30)) {
+    // no merge function: make the key sets disjoint by giving every source its own last byte
+    c.merge = 0;
+    for (size_t si = 0; si < c.fam.srcs.size(); si++) {
+      std::set<bytes, BLess> ks;
+      for (auto k : c.fam.srcs[si].keys) {
+        if (chance(70)) k.push_back((char)('0' + si));
+        else k.insert(k.begin(), (char)('0' + si));
+        ks.insert(k);
+      }
+      c.fam.srcs[si].keys.assign(ks.begin(), ks.end());
+    }
+    std::map<bytes, int, BLess> seen;
+    for (auto &sp : c.fam.srcs) {
+      std::vector<bytes> keep;
+      for (auto &k : sp.keys)
+        if (seen[k]++ == 0) keep.push_back(k);
+      sp.keys = keep;
+    }
+  }
   RefTable m = c.fam.merged();
   KeyUniverse u;
   std::set<unsigned char> al;
@@ -81,7 +107,7 @@ static Result run_case(const Case &c) {
     MergeClos mc;
     mc.keep_log = false;
     struct mtbl_merger_options *mo = mtbl_merger_options_init();
-    mtbl_merger_options_set_merge_func(mo, concat_merge, &mc);
+    if (c.merge) mtbl_merger_options_set_merge_func(mo, concat_merge, &mc);
     if (c.dupsort) mtbl_merger_options_set_dupsort_func(mo, dupsort_bytewise, c.dupsort == 2 ? (void *)1 : nullptr);
     struct mtbl_merger *mg = mtbl_merger_init(mo);
     mtbl_merger_options_destroy(&mo);
@@ -112,6 +138,7 @@ static Result run_case(const Case &c) {
     if (hs.backward_seek) r.tag("backward_seek");
     if (hs.seek_after_exhaustion) r.tag("seek_after_failure");
     if (c.queries) r.tag("lookups_through_merger_source");
+    if (!c.merge) r.tag("no_merge_function_disjoint_sources");
     for (auto &s : c.iters) r.tag("kind_" + std::to_string(s.kind));
     for (auto &s : c.fam.srcs)
       if (s.kind == 1) r.tag("user_defined_source");
